@@ -14,6 +14,7 @@ claimed = {
  "C08": ("exploration", DST + "scheduler-contract monitor on every call + stop faults + wrapper transparency", "argument-shape monitor at every decision of every run, yield flag exactness, offered set = model enabled set, scheduler None / run end faults, recorders inside and outside the transparent wrappers", "portfolio stop wrapper checked from inside only"),
  "C13": ("exploration", DST + "step-profile oracle against the unbounded execution", "each program is run unbounded, then with FailAfter/ContinueAfter(n) around its length and 1-3 executions: steps since reset never exceed n, fewer-than-n executions identical, more-than-n executions fail/abandon as configured, run count exact; iteration budgets 0..20 on every built-in scheduler", "max_time only at 0 and large (real clock not owned); known finding F8 (draws unchecked) keyed separately"),
  "C14": ("exploration", DST + "per-iteration equality with stand-alone re-execution + init/destroy accounting", "multi-iteration runs whose predecessors complete, are stopped by the scheduler at a drawn decision, or are cut by ContinueAfter; every iteration must equal the fresh stand-alone execution of its own schedule (snapshot of clock/schedule length/name/labels, decisions, draws, events) and destroy everything it initialised (TLS, lazy statics, stack values)", "stand-alone runs in the same process with a fresh Runner and the harness's own FollowSched; F17 pinned in a child process"),
+ "C15": ("exploration", DST + "happens-before derivation from the event log vs sampled vector clocks", "clock() sampled after every operation; edges derived by API rules: every edge must be reflected by clock dominance, per-task monotonicity, exactness (no spurious order, also via VectorClock::partial_cmp) on the restricted family whose edge set is complete, and target-clock replay must keep the causal past", "exactness only on the restricted family (no try-ops/condvar/barrier/once/bounded channels); rendezvous send compared as of publication; F19 keyed separately"),
  "C16": ("fault_enumeration", "deterministic simulation with fault injection (stored-artefact corruption sweep over recorded schedules) + seeded boundary-biased input generation", "round trip in three layouts; every truncation point, version classes, non-hex, over-long declared length must be rejected by return value", "decoder in-process under catch_unwind; aborts attributed by the coordinator"),
 }
 checks = []
